@@ -294,6 +294,10 @@ inductive Action
   | deliver (ty : Ty) (remote purpose dir phys : Int) (fields : List Int)
   | poll
   | wait (sub : Nat) (kind : WaitKind) (addr : Int) (lo hi : Nat)
+  /-- a `create_epr` / `recv_epr` instruction during which a call into the network stack
+  (`get_purpose_id`, or `put` for a create) raised: the request was never accepted by the stack.
+  Issuing is atomic with the stack's acceptance: nothing is registered. -/
+  | rejected (sub : Nat)
   deriving Repr, Inhabited
 
 /-- run `f` on the memory of the application of live subroutine `sub` -/
@@ -366,6 +370,7 @@ def step (okf : Nat) (s : State) : Action → Option State
   | .wait sub kind addr lo hi => match waitOk s sub kind addr lo hi with
       | none => none
       | some _ => some s
+  | .rejected sub => withApp s sub fun _ _ => some s
 
 def run (okf : Nat) (s : State) : List Action → Option State
   | [] => some s
